@@ -290,7 +290,7 @@ def model_request(e, t, x, ctx, inverse, rec=None, pass_index=-1):
         cls = e.extra['cls']
         ds, ps = [], []
         if cls == 'LogTanh':
-            ds = [t.cut_point, t.inv_cut_point, t.alpha, t.beta]
+            ds = [t.cut_point]   # alpha, beta, inv_cut_point are DERIVED by the model from cut_point as the constructor does
         elif cls == 'LeakyReLU':
             ds = [t.negative_slope]; ps = [t.log_negative_slope.to(x.dtype).reshape(1)]
         elif cls == 'Sigmoid':
